@@ -32,11 +32,26 @@ fn copy_xattr(infd: &File, outfd: &File) -> Result<()> {
     // FIXME: Flag for xattr.
     if XATTR_SUPPORTED {
         debug!("Starting xattr copy...");
+        // One attribute that cannot be copied (e.g. security.capability
+        // as an unprivileged user, or a value too large for the
+        // destination) must not cost the file the attributes listed
+        // after it: carry on, and report the first failure.
+        let mut first_err = None;
         for attr in infd.list_xattr()? {
-            if let Some(val) = infd.get_xattr(&attr)? {
-                debug!("Copy xattr {:?}", attr);
-                outfd.set_xattr(attr, val.as_slice())?;
+            let copied = infd.get_xattr(&attr)
+                .and_then(|val| match val {
+                    Some(val) => {
+                        debug!("Copy xattr {:?}", attr);
+                        outfd.set_xattr(&attr, val.as_slice())
+                    }
+                    None => Ok(()),
+                });
+            if let Err(e) = copied {
+                first_err.get_or_insert(e);
             }
+        }
+        if let Some(e) = first_err {
+            return Err(e.into());
         }
     }
     Ok(())
